@@ -363,7 +363,6 @@ def falsy_override_sites(func):
 # ---------------------------------------------------------------------------
 # names that may be read before assignment on a path the two correlations of dataflow.undefined_witness cannot exclude, each confirmed by reading
 ASSIGNED_BY_ARGUMENT = {
-    ('xdoctest.doctest_example.DocTest.run', 'sub_tb'): 'loop variable read after the loop, only inside `if DEBUG:` output; an empty traceback walk is followed by the "could not clean traceback" branch',
     ('xdoctest.parser.DoctestParser.parse', 'failpoint'): 'assigned by the None-test chain of the wrapping handler; that one of the tests holds is what C14.R1 decides (an exceptional edge out of the i-th phase leaves the i-th result None)',
 }
 
@@ -383,8 +382,12 @@ def definite_assignment(ctx, rule, modules, floor):
         n_funcs += 1
         cands = possibly_undefined(g, rd)
         seen = set()
+        dom = ctx.dom(g, g.entry) if cands else None
         for (node, nm) in cands:
             if (f.qualname, nm.id) in ASSIGNED_BY_ARGUMENT or (nm.id, id(node)) in seen:
+                continue
+            # diagnostic output under a debug switch is no part of any property (a loop variable printed after the loop, ...)
+            if dom is not None and dom.has(node) and any(fa.polarity is True and 'DEBUG' in fa.text for fa in graph_guard_facts(dom, node)):
                 continue
             seen.add((nm.id, id(node)))
             w = undefined_witness(g, rd, node, nm.id, load=nm)
@@ -399,6 +402,11 @@ def definite_assignment(ctx, rule, modules, floor):
     rep.ob(rule, 'src/%s:1' % sorted(modules)[0].replace('.', '/') + '.py', 'locals are assigned before use (%d functions)' % n_funcs, True,
            'no feasible path reads an unassigned local (%d documented exceptions)' % len(ASSIGNED_BY_ARGUMENT), anchor=sorted(modules)[0])
     rep.floor(rule, 'functions analysed for definite assignment', n_funcs, floor)
+
+
+def graph_guard_facts(dom, node):
+    from .. import graph
+    return graph.guard_facts(dom, node)
 
 
 def graph_fmt(path, relpath):
